@@ -166,7 +166,7 @@ class GMonthDay:
     @classmethod
     def from_date(cls, date: datetime.date) -> "GMonthDay":
         tzinfo = date.tzinfo if hasattr(date, 'tzinfo') else None  # type: ignore
-        return cls(date.month, date.year, tzinfo)
+        return cls(date.month, date.day, tzinfo)
 
     def __eq__(self, other: object) -> bool:
         if not isinstance(other, GMonthDay):
